@@ -136,6 +136,9 @@ func (c *rconn) build(r reply, req []byte, n int) []byte {
 			case 4:
 				p.ClientHWAddr = append(append(net.HardwareAddr{}, mac...), 0, 0) // the client's address with two more bytes
 			default:
+				if n%12 == 5 {
+					return []byte{} // a zero-length datagram
+				}
 				return append(p.ToBytes()[:240], 53, 9, 1) // undecodable
 			}
 		}
@@ -168,6 +171,8 @@ func (c *rconn) build(r reply, req []byte, n int) []byte {
 	if !r.Ok {
 		if n%2 == 0 {
 			m.TransactionID[2] ^= 0x55
+		} else if n%4 == 1 {
+			return []byte{} // a zero-length datagram
 		} else {
 			return []byte{byte(mt), 1}
 		}
@@ -275,6 +280,10 @@ func run4(c struct {
 	if err != nil {
 		panic(err)
 	}
+	// the caller's own modifiers, in one slice with room to spare that is handed to every call (UserMods of Trace_Lease.tla)
+	userMods := make([]dhcpv4.Modifier, 0, 8)
+	userMods = append(userMods, dhcpv4.WithOption(dhcpv4.OptHostName("leasesim")),
+		dhcpv4.WithRequestedOptions(dhcpv4.OptionNTPServers, dhcpv4.OptionBootfileName), dhcpv4.WithOption(dhcpv4.OptClassIdentifier("vh")))
 	res := result{Kind: "err"}
 	var lease *nclient4.Lease
 	func() {
@@ -283,7 +292,7 @@ func run4(c struct {
 				res = result{Kind: "panic", Err: fmt.Sprint(r)}
 			}
 		}()
-		l, err := cl.Request(context.Background())
+		l, err := cl.Request(context.Background(), userMods...)
 		var nak *nclient4.ErrNak
 		switch {
 		case err == nil:
@@ -323,7 +332,7 @@ func run4(c struct {
 		conn.mu.Lock()
 		conn.script = append(conn.script[:ntx:ntx], []reply{{T: "nak", Sid: "B", Ok: true}, {T: "ack", Sid: lease0sid(lease), Ok: true, A: 4}})
 		conn.mu.Unlock()
-		renewed, rerr := cl.Renew(context.Background(), lease)
+		renewed, rerr := cl.Renew(context.Background(), lease, userMods...)
 		rr := map[string]any{"ok": rerr == nil}
 		if rerr == nil {
 			rr["final"] = id4(renewed.ACK)
@@ -339,7 +348,7 @@ func run4(c struct {
 		rr["ackpkt"] = proj4(lease.ACK)
 		out["renew"] = rr
 		ntx = len(conn.txs)
-		relErr := cl.Release(lease)
+		relErr := cl.Release(lease, userMods...)
 		rl := map[string]any{"ok": relErr == nil, "ackpkt": proj4(lease.ACK)}
 		ltx := []any{}
 		for _, t := range conn.txs[ntx:] {
